@@ -111,6 +111,13 @@ package scheduling
 //@   loop 1 invariant [keys] forall id string {id in rm.capacity} :: (id in rm.capacity) <==> old(id in rm.capacity)
 //@   loop 1 invariant [others] forall h string, id string {id in rm.reservations[h]} :: h != hostname ==> (rmHeld(rm, h, id) <==> old(rmHeld(rm, h, id)))
 
+// The counting argument, kept at lemma level (the number of hostnames holding an id is not a term of the contract
+// language). Let h be the number of hostnames holding id and c = rmCap(id). Reserve / Release / releaseReservedOfferings
+// change c by -g+l, where g (l) says whether the acting hostname gained (lost) id, i.e. h changes by +g-l, and nothing
+// else changes ([capacity], [held], [others] above). So c + h is constant and, with c >= 0 (rmNonNeg), h never exceeds
+// the initial capacity, which NewReservationManager bounds by the ReservationCapacity of every offering with that id.
+//@ lemma holdersBounded [C17]: forall c int, h int, c2 int, h2 int, init int, g int, l int :: (c + h == init && 0 <= g && g <= 1 && 0 <= l && l <= 1 && c2 == c - g + l && h2 == h + g - l && c2 >= 0) ==> (c2 + h2 == init && h2 <= init)
+
 // ---- initialisation from the catalog ----
 // A catalog is well formed when every offering has a single capacity type, and every reserved offering a single
 // reservation id and a non-negative reservation capacity.
@@ -118,6 +125,7 @@ package scheduling
 //@ pure oCatOK(o *cloudprovider.Offering) bool = cloudprovider.ctOK(o) && (resOf(o) ==> (cloudprovider.ridOK(o) && o.ReservationCapacity >= 0))
 //@ pure ofsCatOK(ofs []*cloudprovider.Offering) bool = forall b int {ofs[b]} :: (0 <= b && b < len(ofs)) ==> oCatOK(ofs[b])
 //@ pure itsCatOK(its []*cloudprovider.InstanceType) bool = forall a int {its[a]} :: (0 <= a && a < len(its)) ==> (its[a] != nil && ofsCatOK(its[a].Offerings))
+// (Parameters typed `loc` are maps: the contract parser has no map[K]V type syntax; the macro uses the argument's own type.)
 //@ pure catOK(cat loc) bool = forall k string {k in cat} :: (k in cat) ==> itsCatOK(cat[k])
 // Every reserved offering among the first n has its id tracked with at most the offering's capacity.
 //@ pure ofsBound(c loc, ofs []*cloudprovider.Offering, n int) bool = forall b int {ofs[b]} :: (0 <= b && b < n && resOf(ofs[b])) ==> ((cloudprovider.rid(ofs[b]) in c) && c[cloudprovider.rid(ofs[b])] <= ofs[b].ReservationCapacity)
